@@ -137,6 +137,49 @@ def exception_copy_safety(P: Program, rep: Report, rule: str):
             rep.check(ok, rule, construct, m.loc, f"{special[0].name}.__deepcopy__ does not simply return self",
                       note=f"inherits __deepcopy__ returning self from {special[0].name}")
             continue
+        if special and special[1] == "__reduce__":
+            # run it: build an instance the way the package does (first constructor call found), reduce it, rebuild it
+            site = None
+            for f in P.all_funcs:
+                for n in own_nodes(f.node):
+                    if isinstance(n, ast.Call) and ast.unparse(n.func).split(".")[-1] == c.name:
+                        site = site or n
+            m = special[0].methods["__reduce__"]
+            if site is None:
+                rep.ok(rule, construct, m.loc, "defines __reduce__ (class is never constructed by the package)", nontrivial=False)
+                continue
+            from ..absint import AClass, AObj, Raised, Unknown, Unsupported, LoopBound, explore
+
+            def rebuild(ctx, c=c, site=site):
+                it = driver_interp(P, ctx, c.module.name.split(".", 1)[-1])
+                args = [Unknown(f"arg{i}", "str") for i, a_ in enumerate(site.args)]
+                kwargs = {k.arg: Unknown(f"kw_{k.arg}", "str") for k in site.keywords if k.arg}
+                try:
+                    obj = it.construct(c, args, kwargs)
+                except Raised as r:
+                    return f"constructing it as at line {site.lineno} raises {r.cls_name()}"
+                try:
+                    red = call(it, obj, "__reduce__")
+                    red = tuple(it.iterate(red)) if not isinstance(red, tuple) else red
+                    fn, a2 = red[0], list(it.iterate(red[1]))
+                    new = it.call_value(fn, a2, {})
+                except Raised as r:
+                    return f"rebuilding it from __reduce__ raises {r.cls_name()} ({r.exc!r})"
+                except (Unsupported, LoopBound, IndexError) as u:
+                    return None  # shape outside the model: not judged
+                if not (isinstance(new, AObj) and new.cls is c):
+                    return f"__reduce__ rebuilds {new!r}, not a {c.name}"
+                for k_, v_ in obj.attrs.items():
+                    if k_ in ("args", "__traceback__", "__cause__", "__context__"):
+                        continue
+                    if k_ not in new.attrs or not (new.attrs[k_] is v_ or new.attrs[k_] == v_):
+                        if not (len(red) > 2 and red[2] is not None):
+                            return f"the rebuilt exception has {k_}={new.attrs.get(k_)!r}, the original {v_!r}"
+                return None
+            bad = [v for _c, v in explore(rebuild, 20) if v]
+            rep.check(not bad, rule, construct, m.loc, f"{c.name}: {bad[0] if bad else ''} (copy.deepcopy / pickle of a failed block holding it fail; "
+                      f"the default write stack deep-copies failed blocks)", note="__reduce__ run abstractly: rebuilds an equal exception")
+            continue
         if special:
             rep.ok(rule, construct, special[0].methods[special[1]].loc, f"defines {special[1]}")
             continue
@@ -170,8 +213,11 @@ def sample_library(it, P: Program, unknown_values=None):
     mk = lambda cls, *a, **k: new_obj(it, P, "model", cls, *a, **k)
     f1 = mk("Field", key=S("fkey1"), value=S("fval1"), start_line=I("fl1"))
     f2 = mk("Field", key=S("fkey2"), value=S("fval2"), start_line=I("fl2"))
-    e1 = mk("Entry", start_line=I("l1"), entry_type=S("type1"), key="k1", fields=AList([f1, f2]), raw=S("raw1"))
-    e2 = mk("Entry", start_line=I("l2"), entry_type=S("type2"), key="k1", fields=AList([]), raw=S("raw2"))
+    f3 = mk("Field", key="empty", value="", start_line=I("fl5"))
+    f4 = mk("Field", key="", value=" ", start_line=I("fl6"))
+    e1 = mk("Entry", start_line=I("l1"), entry_type=S("type1"), key="k1", fields=AList([f1, f2, f3, f4]), raw=S("raw1"))
+    e2 = mk("Entry", start_line=I("l2"), entry_type=S("type2"), key="k1", raw=S("raw2"),
+            fields=AList([mk("Field", key="empty", value="", start_line=I("fl3")), mk("Field", key="", value=" ", start_line=I("fl4"))]))
     e3 = mk("Entry", start_line=I("l3"), entry_type=S("type3"), key="k3",
             fields=AList([mk("Field", key=S("fk"), value=S("fv"), start_line=I("fl"))]), raw=S("raw3"))
     s1 = mk("String", start_line=I("l4"), key="s1", value=S("sval"), raw=S("raw4"))
@@ -267,3 +313,35 @@ def parse_stack_never_raises(P: Program, rep: Report, rule: str):
     rep.count("parse_stack_paths", n)
     if not seen:
         rep.ok(rule, "parse-stack:all-paths-return", ps.loc, f"{n} abstract paths, all return")
+
+
+IMMUTABLE_ANN = {"str", "int", "bool", "float", "bytes", "None", "Optional[str]", "Optional[int]"}
+
+
+def no_unsafe_memoisation(P: Program, rep: Report, rule: str, modules: List[str]):
+    """A memoised function (functools.lru_cache / cache / cached_property) hands the same object to every caller and
+    never sees later changes of its arguments: it must neither take nor return a mutable object."""
+    n = 0
+    for fi in P.all_funcs:
+        if fi.module.name.split(".", 1)[-1] not in modules and fi.module.name not in modules:
+            continue
+        n += 1
+        for d in getattr(fi, "memo_decorators", []):
+            params = fi.node.args.args
+            owner_mutable = fi.cls is not None and not fi.is_static
+            mutable_params = [a.arg for a in params if a.arg not in ("self", "cls") and
+                              (a.annotation is None or ast.unparse(a.annotation).replace("'", "").replace('"', "") not in IMMUTABLE_ANN)]
+            rets = [r for r in own_nodes(fi.node) if isinstance(r, ast.Return) and r.value is not None]
+            mutable_ret = any(isinstance(r.value, (ast.List, ast.Dict, ast.Set, ast.ListComp, ast.DictComp, ast.SetComp, ast.Call, ast.Name, ast.Attribute))
+                              and not (isinstance(r.value, ast.Call) and ast.unparse(r.value.func) in ("str", "int", "tuple", "len", "\" \".join", "\", \".join"))
+                              for r in rets)
+            why = []
+            if owner_mutable:
+                why.append("it is a method of a mutable object (the cache does not see later changes of its attributes)")
+            if mutable_params:
+                why.append(f"its parameters {mutable_params} are not known to be immutable")
+            if mutable_ret:
+                why.append("it returns an object that callers may mutate (every caller gets the same object)")
+            if why:
+                rep.fail(rule, f"memoised:{fi.qualname}", fi.loc, f"{fi.qualname} is memoised with @{d}: " + "; ".join(why))
+    rep.ok(rule, f"memoisation:{'+'.join(modules)}", "bibtexparser/", f"{n} functions scanned", nontrivial=False)
